@@ -455,6 +455,9 @@ class CDSInterval(AbstractFeatureInterval):
         over every codon, but this is slower because it has a lot of object instantiation overhead. However,
         if those objects have already been instantiated and cached, then it is faster to just re-use them.
         """
+        # a CDS that has no base on its sequence chunk has no sequence there, whether or not codons were listed before
+        if self.chunk_relative_location.is_empty:
+            return Sequence("", Alphabet.NT_EXTENDED, validate_alphabet=False)
         if self._chunk_relative_codon_locations_cached is True:
             codons = (str(codon_location.extract_sequence()) for codon_location in self.chunk_relative_codon_locations)
             seq = "".join(codons)
